@@ -154,3 +154,86 @@ Proof.
   - intros _ y Ny _. vm_compute. intros [H|[]]. inversion H. congruence.
   - intros E. discriminate.
 Qed.
+
+(* ==== histories WITH refused run ids (Model/SchedFault.v: xrun over list xev) ==== *)
+From DV Require Import Model.SchedFault Proofs.SchedFaultInv.
+
+(* a released unit is handed to at most one worker and otherwise stays queued --
+   for a dispatch with a refused k-th run-id request (k = 0: none), from ANY state
+   satisfying the invariants that survive refused requests (GInv; every state of
+   every history, C03_faults_reach): what is handed out plus the queue afterwards
+   is a permutation of the queue before plus the messages made now; the workers
+   that receive a message are pairwise distinct *)
+Theorem C03_one_worker_or_queued_faults : forall c k s, GInv c s -> active s = true ->
+  let s' := fst (dispatch_fault c k s) in
+  exists newms cl n,
+    Permutation cl (cluster s ++ newms) /\
+    n = Nat.min (length cl) (length (workers_sort (workers s))) /\
+    cluster s' = skipn n cl /\
+    inflight s' = inflight s ++ combine (map fst (firstn n (workers_sort (workers s)))) (firstn n cl) /\
+    (NoDup (map fst (workers s)) ->
+     NoDup (map fst (combine (map fst (firstn n (workers_sort (workers s)))) (firstn n cl)))).
+Proof.
+  intros c k s G A. destruct (fault_messages c k s G A) as (newms & cl & n & P & Hn & C & F & _).
+  exists newms, cl, n. repeat (split; [assumption|]). intros N. subst n. apply handed_workers_nodup. exact N.
+Qed.
+Print Assumptions C03_one_worker_or_queued_faults.
+
+Theorem C03_faults_reach : forall c xs, GInv c (xrun c (init c) xs).
+Proof. intros c xs. apply xrun_GInv. apply init_GInv. Qed.
+Print Assumptions C03_faults_reach.
+
+(* no re-release while doing, in every history with refused requests: a message
+   made by a dispatch is either for a target the node was NOT doing when the
+   dispatch began (released now), or it is made from what the farm kept after a
+   refused request (kept: the target is in the job's `do` set, or the job is an
+   analysis on the farm's list) -- a kept unit is in `doing` since its release
+   and has not been sent yet.  PARTIAL: that a kept unit is not ALSO in flight
+   (single flight with refused requests) is not proved. *)
+Theorem C03_no_rerelease_faults_partial : forall c xs e, is_tick e ->
+  let s := xrun c (init c) xs in
+  let s' := fst (xstep c s e) in
+  active s = true ->
+  exists newms cl n,
+    Permutation cl (cluster s ++ newms) /\
+    cluster s' = skipn n cl /\
+    forall m, In m newms ->
+      kept c s m \/ ~ In (m_tgt m) (doing (getn (ns s) (m_job m))).
+Proof.
+  intros c xs e T s s' A. destruct (tick_messages_fresh c xs e T A) as (newms & cl & n & P & _ & C & _ & M).
+  exists newms, cl, n. split; [exact P|]. split; [exact C|]. intros m Hm. apply (M m Hm).
+Qed.
+Print Assumptions C03_no_rerelease_faults_partial.
+
+(* every result whose unit the scheduler still counts as doing is applied exactly
+   once, in every history with refused requests *)
+Theorem C03_applied_once_faults : forall c xs x t r o vs,
+  let s := xrun c (init c) xs in
+  In t (doing (getn (ns s) x)) ->
+  snd (res c x t r o vs s) = [OChron x t r o] /\
+  fst (res c x t r o vs s) =
+    let s1 := set_busy s (filter (fun u => negb (unit_eqb u (x, t))) (busy s)) in
+    match o with
+    | Success => update c vs x r (set_archive (complete c x t s1)
+                   (archive (complete c x t s1) || match vs with [] => false | _ :: _ => true end))
+    | _ => purge c x t (complete c x t s1)
+    end.
+Proof.
+  intros c xs x t r o vs s H. apply reply_applied.
+  apply (doing_reply_found_G c s x t (C03_faults_reach c xs) H).
+Qed.
+Print Assumptions C03_applied_once_faults.
+
+(* non-vacuity: two jobs released, the 2nd request refused: job 0 is sent, job 1 is
+   kept; it is requested for a second target and released again before the retry:
+   it sits on the farm's list twice; the retry sends each of its targets ONCE *)
+Example C03_faults_example :
+  let c := {| gnodes := [ {| kids := []; anc := []; gfac := Task; lvl := 0; ins := [] |};
+                          {| kids := []; anc := []; gfac := Task; lvl := 0; ins := [] |} ];
+              gfb := []; gtargets := [1; 2] |} in
+  let xs := [Ev (Reg 1 0 true); Ev (Org [0; 1] None [1]); TickFault 2; Ev (Org [1] None [2]); TickFault 1] in
+  let s := xrun c (init c) xs in
+  let s' := fst (xstep c s (Ev Tick)) in
+  active s = true /\ jobs s = [1; 1] /\ do_ (getn (ns s) 1) = [1; 2] /\
+  map (fun m => (m_job m, m_tgt m)) (cluster s') = [(1, 1); (1, 2)] /\ jobs s' = [].
+Proof. vm_compute. repeat split; reflexivity. Qed.
